@@ -25,8 +25,8 @@ ASSUMPTIONS = ['"visible to user code" = identifiers occurring in the original s
 VOCAB = ('do_return', 'retval_', 'break_', 'continue_', 'fscope', 'lscope', 'get_state', 'set_state', 'if_body', 'else_body',
          'loop_body', 'loop_test', 'extra_test', 'itr', 'vars_', 'ag__f', 'inner_factory', 'outer_factory',
          # first numbered variants (what a nested function / second statement gets)
-         'fscope_1', 'get_state_1', 'loop_body_1', 'do_return_1')
-NUMBERED = tuple(v + '_1' for v in VOCAB) + ('block_vars', 'ag__inner', 'ag__lam')
+         'fscope_1', 'get_state_1', 'loop_body_1', 'do_return_1', 'block_vars')
+NUMBERED = tuple(v + '_1' for v in VOCAB if not v.endswith('_1') and v != 'block_vars') + ('ag__inner', 'ag__lam', 'block_vars_1')
 ROLES = ('state', 'assigned', 'readonly', 'param', 'globalread', 'globaldecl', 'closure', 'fnname', 'looptarget', 'lambdaparam',
          'globalcall', 'nestedglobal',
          # the variable of `except E as V` (block inside the handler, V read after it); a name first mentioned AFTER the
